@@ -18,3 +18,8 @@ claim('C16', 'exploration',
       'Trusted: numpy searchsorted, pysam get_blocks/get_aligned_pairs. Coordinates non-negative, strands +/-; the undocumented 4th lookup variant (optim not in bdbnb/nb/optim) is not claimed.',
       'model-based / stateful property-based testing (Hypothesis operation sequences) against a linear-scan reference model',
       'DESIGN.md section 4, C16')
+claim('C07', 'exploration',
+      'Hypothesis-generated sorted fragment lists (NlaIII / scCHIC / plain fragments, several cells, duplicates arriving after unrelated molecules, short and wide spans); for every input ALL ejection schedules (None, 0..n) x both pooling methods are executed on MoleculeIterator and compared with the never-eject partition and with the generator\'s truth classes; exactly-once emission is checked.',
+      'Trusted: pysam AlignedSegment. UMIs compared exactly; clean equality classes; spans < cache_size/4, or wider spans restricted by the documented cache_size/2 ejection margin (in_domain). Exhaustive over schedules per input, sampled over inputs.',
+      'property-based testing (Hypothesis) with exhaustive schedule enumeration per input; differential oracle (never-eject) + ground-truth partition',
+      'DESIGN.md section 4, C07')
